@@ -68,7 +68,7 @@ func (eng *Engine) execCall(fn *ssa.Function, in ssa.CallInstruction, env *Env) 
 			var outs []*Env
 			for _, target := range fv.Fns {
 				e2 := env.clone()
-				outs = append(outs, eng.callResolved(fn, target, nil, in, args, e2)...)
+				outs = append(outs, eng.callResolved(fn, target, fv.Bind, in, args, e2)...)
 			}
 			return outs
 		}
@@ -593,6 +593,13 @@ func (eng *Engine) execBuiltin(b *ssa.Builtin, in ssa.CallInstruction, env *Env)
 		res := numTop()
 		if s, ok := a.single(); ok && len(s) > 0 && s[0] == '"' {
 			res = constAV(constant.MakeInt64(int64(len(constant.StringVal(parseConst(s))))))
+		}
+		if sl, ok := com.Args[0].(*ssa.Slice); ok && b.Name() == "len" {
+			// the full slice of a local array literal has the array's length
+			if al := tableAllocOf(sl); al != nil {
+				at := al.Type().Underlying().(*types.Pointer).Elem().Underlying().(*types.Array)
+				res = constAV(constant.MakeInt64(at.Len()))
+			}
 		}
 		if a.Expr != "" && res.Set == nil {
 			res.Expr = "len(" + a.Expr + ")"
